@@ -687,3 +687,129 @@ mod tests {
         ));
     }
 }
+
+/// Verification hooks (model-based conformance checks): wrappers around the private
+/// path state so that a harness can drive the real `RemotePathState` and
+/// `prune_non_relay_paths`.  Only compiled with `--cfg iroh_verif`.
+#[cfg(iroh_verif)]
+pub(crate) mod verif_hooks {
+    use std::time::Duration;
+
+    use super::*;
+
+    /// Mirror of [`PathStatus`] with the close time in milliseconds after a base instant.
+    #[derive(Debug, Clone, Copy, PartialEq, Eq)]
+    pub(crate) enum VStatus {
+        Open,
+        Inactive(u64),
+        Unusable,
+        Unknown,
+    }
+
+    /// `(MAX_NON_RELAY_PATHS, MAX_INACTIVE_NON_RELAY_PATHS)`.
+    pub(crate) const LIMITS: (usize, usize) = (MAX_NON_RELAY_PATHS, MAX_INACTIVE_NON_RELAY_PATHS);
+
+    fn to_status(base: Instant, s: VStatus) -> PathStatus {
+        match s {
+            VStatus::Open => PathStatus::Open,
+            VStatus::Inactive(ms) => PathStatus::Inactive(base + Duration::from_millis(ms)),
+            VStatus::Unusable => PathStatus::Unusable,
+            VStatus::Unknown => PathStatus::Unknown,
+        }
+    }
+
+    fn from_status(base: Instant, s: &PathStatus) -> VStatus {
+        match s {
+            PathStatus::Open => VStatus::Open,
+            PathStatus::Inactive(t) => {
+                VStatus::Inactive(t.saturating_duration_since(base).as_millis() as u64)
+            }
+            PathStatus::Unusable => VStatus::Unusable,
+            PathStatus::Unknown => VStatus::Unknown,
+        }
+    }
+
+    /// Runs [`prune_non_relay_paths`] on the path set `input`; returns the surviving addresses.
+    pub(crate) fn prune(input: Vec<(transports::Addr, VStatus)>) -> Vec<transports::Addr> {
+        let base = Instant::now();
+        let mut paths: FxHashMap<transports::Addr, PathState> = FxHashMap::default();
+        for (addr, st) in input {
+            paths.insert(
+                addr,
+                PathState {
+                    sources: HashMap::new(),
+                    status: to_status(base, st),
+                },
+            );
+        }
+        prune_non_relay_paths(&mut paths);
+        paths.into_keys().collect()
+    }
+
+    /// A real [`RemotePathState`] with observers.
+    #[derive(Debug)]
+    pub(crate) struct VPathState {
+        inner: RemotePathState,
+        base: Instant,
+    }
+
+    impl VPathState {
+        pub(crate) fn new() -> Self {
+            Self {
+                inner: RemotePathState::new(Default::default()),
+                base: Instant::now(),
+            }
+        }
+
+        pub(crate) fn insert_multiple(&mut self, addrs: Vec<transports::Addr>) {
+            self.inner.insert_multiple(addrs.into_iter(), Source::App);
+        }
+
+        pub(crate) fn insert_open_path(&mut self, addr: transports::Addr) {
+            self.inner.insert_open_path(addr, Source::Connection);
+        }
+
+        pub(crate) fn abandoned_path(&mut self, addr: &transports::Addr) {
+            self.inner.abandoned_path(addr);
+        }
+
+        pub(crate) fn resolve_remote(
+            &mut self,
+        ) -> oneshot::Receiver<Result<(), AddressLookupFailed>> {
+            let (tx, rx) = oneshot::channel();
+            self.inner.resolve_remote(tx);
+            rx
+        }
+
+        pub(crate) fn address_lookup_finished(&mut self, result: Result<(), AddressLookupFailed>) {
+            self.inner.address_lookup_finished(result);
+        }
+
+        pub(crate) fn prune_paths(&mut self) {
+            self.inner.prune_paths();
+        }
+
+        pub(crate) fn pending_len(&self) -> usize {
+            self.inner.pending_resolve_requests.len()
+        }
+
+        pub(crate) fn is_empty(&self) -> bool {
+            self.inner.is_empty()
+        }
+
+        /// Overwrites the status of a known path (used to set up large path sets).
+        pub(crate) fn set_status(&mut self, addr: &transports::Addr, st: VStatus) {
+            if let Some(p) = self.inner.paths.get_mut(addr) {
+                p.status = to_status(self.base, st);
+            }
+        }
+
+        pub(crate) fn snapshot(&self) -> Vec<(transports::Addr, VStatus)> {
+            self.inner
+                .paths
+                .iter()
+                .map(|(a, p)| (a.clone(), from_status(self.base, &p.status)))
+                .collect()
+        }
+    }
+}
